@@ -126,9 +126,14 @@ impl SchedSpec for ExecSpec {
                     if exec.is_idle() {
                         for i in before {
                             if cn[i].load(Ordering::SeqCst) == 0 {
+                                // two ways to get here: the answer was put together from an active_tasks read and a later
+                                // total_queued() read with the worker taking the task in between (the task IS counted as active by
+                                // now: a stale read inside is_idle itself), or the task is off its queue and not counted at all
+                                let active = exec.stats().active_tasks;
+                                let class = if active > 0 { "observer_stale_active_read" } else { "observer_task_not_counted" };
                                 sched::fail_now(
-                                    Fail::new("idle_with_pending_task", format!("is_idle() answered true although task {i}, accepted by submit() before the call, has not run yet (total_queued() = {}, active_tasks = {})", exec.total_queued(), exec.stats().active_tasks))
-                                        .with_class("observer"),
+                                    Fail::new("idle_with_pending_task", format!("is_idle() answered true although task {i}, accepted by submit() before the call, has not run yet (total_queued() = {}, active_tasks = {active})", exec.total_queued()))
+                                        .with_class(class),
                                 );
                             }
                         }
